@@ -284,6 +284,11 @@ def c_xcase(rec) -> str:
         clist(cN(cd.var(v)) for v in rec["choices"]), c_tc(rec["result"], cd))
 
 
+def c_lcase(rec) -> str:
+    cd = Coder()
+    return "(%s, %s, %s)" % (c_tc(rec["before"], cd), "true" if rec["found"] else "false", c_tc(rec["after"], cd))
+
+
 def c_acase(rec) -> str:
     cd = Coder()
     return "(%s, %s)" % (c_tc(rec["before"], cd), c_tc(rec["after"], cd))
@@ -306,6 +311,7 @@ class Recorder:
 
     def __init__(self):
         self.steps, self.xover, self.inserts = [], [], []
+        self.ls = []           # local-search searches with rollback: kind, before, found, after
         self.alias = []        # (op, abstract state of ANOTHER test case before, after): must be equal
         self.alias_ok = []     # sample of unchanged bystanders (for the Coq side)
         self._live = {}        # id -> (weakref, fingerprint, abstract state)
@@ -469,6 +475,39 @@ class Recorder:
             return r
 
         tfm.TestFactory.insert_random_statement = irs
+
+        import pynguin.testcase.localsearch as lsm
+        import pynguin.testcase.localsearchstatement as lss
+
+        orig_sdd = lsm.TestCaseLocalSearch._search_different_datatype
+
+        def sdd(self_ls, chromosome, factory, objective, position):
+            before = abs_tc(chromosome.test_case)
+            found = None
+            try:
+                found = orig_sdd(self_ls, chromosome, factory, objective, position)
+                return found
+            finally:
+                if found is not None:
+                    rec.ls.append({"kind": "different_datatype", "before": before, "found": bool(found),
+                                   "after": abs_tc(chromosome.test_case)})
+
+        lsm.TestCaseLocalSearch._search_different_datatype = sdd
+
+        orig_ps = lss.ParametrizedStatementLocalSearch.search
+
+        def ps(self_s):
+            before = abs_tc(self_s._chromosome.test_case)
+            found = None
+            try:
+                found = orig_ps(self_s)
+                return found
+            finally:
+                if found is not None:
+                    rec.ls.append({"kind": "parametrized", "before": before, "found": bool(found),
+                                   "after": abs_tc(self_s._chromosome.test_case)})
+
+        lss.ParametrizedStatementLocalSearch.search = ps
 
         orig_mi = mu.TestCaseMutation._mutation_insert
 
